@@ -154,8 +154,16 @@ impl<S: WebSocket, T: TimestampProvider> Task<S, T> {
                 (true, Ok(()))
             }
         };
-        self.wind_down(should_drain_frame_rx, tx_msg_rx, dropped_flows_rx)
-            .await;
+        // If we are exiting because of an error (the transport failed, the peer sent garbage
+        // or stopped answering our `Ping`s), the peer cannot be expected to take part in a
+        // closing handshake.
+        self.wind_down(
+            should_drain_frame_rx,
+            res.is_err(),
+            tx_msg_rx,
+            dropped_flows_rx,
+        )
+        .await;
         res
     }
 
@@ -293,6 +301,7 @@ impl<S: WebSocket, T: TimestampProvider> Task<S, T> {
     async fn wind_down(
         &self,
         should_drain_msg_rx: bool,
+        peer_gone: bool,
         mut tx_msg_rx: mpsc::UnboundedReceiver<Message>,
         mut dropped_flows_rx: mpsc::UnboundedReceiver<u32>,
     ) {
@@ -334,13 +343,26 @@ impl<S: WebSocket, T: TimestampProvider> Task<S, T> {
                 // ws.flush().await.ok();
             }
         }
-        // This will flush the remaining frames already queued for sending as well
-        poll_fn(|cx| self.ws.lock().poll_close_unpin(cx)).await.ok();
-        // The above line only closes the `Sink`. Before we terminate connections,
-        // we dispatch the remaining frames in the `Source` to our streams.
-        while let Some(Ok(msg)) = poll_fn(|cx| self.ws.lock().poll_next_unpin(cx)).await {
-            debug!("processing remaining message after closure {msg:?}");
-            self.process_message(msg, true).await.ok();
+        if peer_gone {
+            // Best effort only: waiting for a broken connection or an unresponsive peer would
+            // keep every stream and every pending request of this multiplexor hanging.
+            poll_fn(|cx| self.ws.lock().poll_close_unpin(cx))
+                .now_or_never();
+            while let Some(Some(Ok(msg))) =
+                poll_fn(|cx| self.ws.lock().poll_next_unpin(cx)).now_or_never()
+            {
+                debug!("processing remaining message after failure {msg:?}");
+                self.process_message(msg, true).await.ok();
+            }
+        } else {
+            // This will flush the remaining frames already queued for sending as well
+            poll_fn(|cx| self.ws.lock().poll_close_unpin(cx)).await.ok();
+            // The above line only closes the `Sink`. Before we terminate connections,
+            // we dispatch the remaining frames in the `Source` to our streams.
+            while let Some(Ok(msg)) = poll_fn(|cx| self.ws.lock().poll_next_unpin(cx)).await {
+                debug!("processing remaining message after closure {msg:?}");
+                self.process_message(msg, true).await.ok();
+            }
         }
         // Finally, we send EOF to all established streams.
         self.flows.write().drain().for_each(|(flow_id, slot)| {
